@@ -246,6 +246,9 @@ fn run_charge_prog(emu: &mut Emu, prog: &Prog, stop: u32) -> Result<(usize, usiz
 
 pub fn run(ctx: &Ctx) -> i32 {
     if let Some(v) = &ctx.replay {
+        if let Some(code) = replay_fuzz(P, v) {
+            return code;
+        }
         if crate::checks::soup::is_soup_replay(v) {
             return crate::checks::soup::replay(ctx, P, v);
         }
@@ -372,6 +375,9 @@ pub fn run(ctx: &Ctx) -> i32 {
     let rule = "cases = every implemented instruction form (all MOV forms, arithmetic, logic/shift, bit instructions, branches/jumps/calls/returns, TRAPA #1-3, RTE, STC) with code in on-chip RAM or DRAM, operands / stack / vectors in on-chip RAM, DRAM and the vector area (incl. first and last addresses), under bus-controller settings constructed so that on-chip RAM, area 0 and area 2 cost pairwise different amounts for byte and word cycles (plus the run-loop default and random settings); operand values vary freely (value independence). Oracle = sum over the reference's advanced-mode cycle table (DESIGN Appendix A) of count x cost(kind, address actually accessed). Non-trivial = code area differs from the operand/stack/vector area, or the setting is not all-zero; distinct by (form, code area, cycle areas, setting). Phase 2: generated programs of 6-40 instructions (loads/stores/bit operations through pointers into on-chip RAM, DRAM and the vector area, push/pop, one leaf call, I/O-register lookups, and stores that reprogram single bus-controller registers on the way) run in lockstep with the reference; every instruction is charged cycle table x cost rule under the setting in force when it runs (history-dependent or late-following charges).";
     let mut extra = Map::new();
     extra.insert("excluded".into(), json!(["operands in the on-chip I/O register ranges (documented TODO)", "TRAPA #0 (serviced by the emulator, not an architectural instruction)", "interrupt acceptance (not charged by the run loop)"]));
+    if tier == Tier::Thorough {
+        fuzz_campaign(ctx, "fuzz_prog", 8, 300_000, 136, &mut stats);
+    }
     stats.merge(crate::checks::soup::phase(ctx, P, crate::checks::soup::Flavor::All, ctx.tier.pick(300000, 6000000), 0x20510000, true));
     let rule_soup = format!("{}{}", rule, crate::checks::soup::RULE);
     let rule: &str = &rule_soup;
